@@ -33,7 +33,7 @@ SPEC = {'id': 'C15',
              'today; true: kept). Not modelled: protocolName/protocolType pass-through, OffsetFetch/DescribeGroups/ListGroups/DeleteGroups, store errors, the '
              "ticker's real-time jitter.",
  'search_n': 1500,
- 'theorems': ['C15_view_preserved', 'C15_store_is_persisted_memory', 'C15_members_keep_working', 'C15_nonvacuous'],
+ 'theorems': ['C15_view_preserved', 'C15_store_is_persisted_memory', 'C15_members_keep_working', 'C15_liveness_preserved', 'C15_nonvacuous'],
  'level_text': 'Machine-checked Coq theorems for every reachable state and both store variants (clone keeps / drops timeouts): the store always holds the '
                'persisted form of the in-memory group; a coordinator that loads it sees the same generation, state, leader, members, subscriptions and '
                "per-member assignments, offsets untouched; in a Stable group every current member's sync (same assignment), heartbeat and commit are accepted "
@@ -42,3 +42,4 @@ SPEC = {'id': 'C15',
                'this view (C17).'}
 SPEC['assumptions'].append("the new coordinator loads a group lazily, on the first request that names it (loadGroupIfMissing); until then its cleanup ticks do not see the group (modelled: Failover empties memory, every request starts with load). C15's statement is about what the new coordinator reports once asked, which is what the theorems cover")
 SPEC['level_text'] += " The generator regularly fails over immediately after an operation that removed a member (cleanup expiry, leave), the point where a missing persist shows as a view difference."
+SPEC['level_text'] += " C15_liveness_preserved: lastHeartbeat, session timeout (stores that keep timeouts) and the absence of a rebalance deadline survive the failover, so the expiry criterion gives the same verdict; the harness generates long heartbeat phases (longer than a session timeout) -> failover -> a request that loads the group -> cleanup tick -> member requests, and the oracle evaluates 'members of the Stable generation keep working' over all following operations incl. cleanup ticks until a join, a leave or an expiry that is due by the harness's own bookkeeping."
